@@ -562,8 +562,9 @@ def istep (s : Inb) : IOp → Inb
     if sc ∈ s.openSc then { s with log := .exc true :: s.log } else { s with openSc := sAdd sc s.openSc }
   | .close sc =>
     -- `assert self._open_subchannels[scid] is sc` (KeyError when not open); `del self._open_subchannels[scid]`;
-    -- `_paused_subchannels` is NOT touched: a subchannel closed while it holds a pause keeps holding it
-    if sc ∈ s.openSc then { s with openSc := sDel sc s.openSc } else { s with log := .exc false :: s.log }
+    -- `self.subchannel_stopProducing(sc)`: a closed subchannel drops its pause, the connection is resumed if it was the last
+    if sc ∈ s.openSc then Inb.discard { s with openSc := sDel sc s.openSc } sc
+    else { s with log := .exc false :: s.log }
 
 /-! ## driver (line protocol)
 
